@@ -114,7 +114,9 @@ Dictated(b) == \/ parent[b] \notin ever                       \* true orphan
 NoTie == Cardinality(MaxWorkTips(acc)) = 1
 
 SideBlocks == {d \in acc \ {0} : d \notin Anc(tip)}
-NewFloor == LET cands == {Height(tip) - P} \cup {Height(Fork(tip, c)) : c \in SideBlocks}
+\* Clean keeps in memory what lies above the lowest fork point of the side branches it holds.  Side blocks that
+\* a Load may have dropped (unsure) do not count: the promise is the weaker one.
+NewFloor == LET cands == {Height(tip) - P} \cup {Height(Fork(tip, c)) : c \in SideBlocks \ unsure}
             IN Max2(floorB, MinSet(cands))
 
 Clean == /\ floorB' = NewFloor
